@@ -79,7 +79,7 @@ def build_corpus(tier, rng):
                 if lo <= x <= hi:
                     near = any(abs(x - d) <= 1 for d in ds)
                     c.add_q(k, "repr", ["val", x], note="near" if near else "far")
-        if fieldless:
+        if fieldless and len(it.variants) <= 64:     # (rustc's debug code for `as` on long signed runs adds base + index in the repr type and traps)
             c.add_q(k, "discr", [], note="as")
         if all(v.kind == "unit" for v in it.variants) and it.tparams == 0:
             c.meta[k]["const"] = True
@@ -154,6 +154,10 @@ def build_corpus(tier, rng):
                         Variant("Off", "named", [Field("std::marker::PhantomData<G0>", "m")], [DISABLED]), mk_variant("D", "unit", False)], repr=rp, tparams=1)
         it.targ = "NoDef"
         add(it, "unbounded-parameter")
+    # WIDE contiguous runs (a range check instead of a match must cover the whole run, also across the sign boundary of a narrow type)
+    for rp, first, n in (("i8", -100, 200), ("i8", -128, 256), ("u8", 0, 256), ("i16", -150, 300), ("u8", 56, 200)):
+        vs = [mk_variant("W%d" % q, "unit", False, first if q == 0 else None) for q in range(n)]
+        add(Item("E", vs, repr=rp), "wide-run")
     # no variant carries data, but the enum has CONST parameters: from_repr is still a const fn
     for rp in (None, "u8", "i32"):
         add(Item("E", [mk_variant("Empty", "unit", False), mk_variant("Taken", "unit", False, 4), mk_variant("Off", "unit", True), mk_variant("Locked", "unit", False)],
@@ -192,7 +196,7 @@ def render_def(k, it, meta, cfg):
     if meta.get("const"):
         src.append("pub const C_FROM_REPR: Option<%s> = %s::from_repr(0);" % (RR.inst(it), E))
     discr_body = '"n/a".to_string()'
-    if fieldless:
+    if fieldless and len(it.variants) <= 64:
         discr_body = 'format!("[{}]", vec![%s].join(";"))' % ", ".join(
             "(%s::%s as i128).to_string()" % (E, v.ident) for v in it.variants)
     repr_body = '''
